@@ -46,6 +46,9 @@ type Work struct {
 	// BackoffMS milliseconds before they are run again).
 	Fail      bool `json:"fail,omitempty"`
 	BackoffMS int  `json:"backoff_ms,omitempty"`
+	// NoWait: the launch step does not wait for the item to begin (a task that cannot get a time slot while the
+	// microtask limit is used up).
+	NoWait bool `json:"no_wait,omitempty"`
 }
 
 // WorkKinds lists the supported kinds of managed work.
